@@ -136,11 +136,11 @@ Print Assumptions C15_registry_invariant_preserved.
     clauses of [step_P] (lenient form), for any tracked key set that contains the created denom. *)
 Theorem C15_model_satisfies_property_core :
   forall blocked ds bs s o, inv s -> (forall sender sub, o = Create sender sub -> In (tf_denom sender sub) ds) ->
-  step_core false (snap_keys ds bs s) o (snd (deliver blocked s o)) (snap_keys ds bs (fst (deliver blocked s o))).
+  step_core false blocked (snap_keys ds bs s) o (snd (deliver blocked s o)) (snap_keys ds bs (fst (deliver blocked s o))).
 Proof. exact model_step_core. Qed.
 Print Assumptions C15_model_satisfies_property_core.
 
 (** The boolean checker run on implementation traces is sound for [P] (strict and lenient). *)
-Theorem C15_checker_sound : forall strict t prev, Pb strict prev t = true -> P strict prev t.
+Theorem C15_checker_sound : forall strict blocked t prev, Pb strict blocked prev t = true -> P strict blocked prev t.
 Proof. exact Pb_sound. Qed.
 Print Assumptions C15_checker_sound.
